@@ -70,8 +70,15 @@ typedef struct thread_pool_t {
 	 * necessary, because it has to wait until the next item in sequence
 	 * is finished.
 	 *
+	 * If a worker reported an error, the pool stops processing further
+	 * items. Items that were already completed (or are still being worked
+	 * on) are returned as usual, after that the function returns NULL
+	 * instead of blocking on items that will never be processed. Use
+	 * get_status to tell this apart from an empty pipeline.
+	 *
 	 * @return A pointer to a new work item or NULL if there are none
-	 *         in the pipeline.
+	 *         in the pipeline, or if the remaining ones have been
+	 *         abandoned because of a worker error.
 	 */
 	void *(*dequeue)(struct thread_pool_t *pool);
 
